@@ -177,6 +177,34 @@ func runC15(c *ctx) {
 			emitC15(c, size, bad, "illegal", false)
 		}
 	}
+	// games played under a CUSTOM configuration (Canonical takes a board size, not a configuration: it replays from
+	// tak.New(Config{Size})): a game under a reduced piece set is legal under the default one as well - canonical form and all
+	// three clauses are checked; a game under an enlarged piece set or with extra capstones on a small board stops being
+	// legal under the default configuration where it uses the extra pieces - Canonical must answer with an error, as the model.
+	for g := 0; g < 18*c.scale; g++ {
+		size := 3 + g%6
+		dp := []int{0, 0, 0, 10, 15, 21, 30, 40, 50}[size]
+		cfg := tak.Config{Size: size, BlackWinsTies: r.Intn(2) == 0}
+		kind := "custom-reduced"
+		switch g % 3 {
+		case 0:
+			cfg.Pieces = 2 + r.Intn(dp-2)
+		case 1:
+			cfg.Pieces = dp + 1 + r.Intn(10)
+			cfg.Capstones = []int{0, 0, 0, 0, 0, 1, 1, 2, 2}[size] + 1 + r.Intn(2)
+			kind = "custom-enlarged"
+		default:
+			size = 3 + g%2
+			cfg.Size = size
+			cfg.Capstones = 1 + r.Intn(3)
+			kind = "custom-capstones-small-board"
+		}
+		_, ms := randomGame(r, cfg, 4+r.Intn(36), []int{-1, 1, 5, 2}[r.Intn(4)], false)
+		if _, legal := replayAbs(size, ms); !legal {
+			c.stat("custom_illegal_under_default", 1)
+		}
+		emitC15(c, size, ms, kind, true)
+	}
 	// ORBIT games: games that RE-ENTER symmetry.  Round by round the two players fill one orbit each of a chosen symmetry g
 	// (a quarter turn: 8 plies per round; a half turn or a reflection: 4 plies): after every round the position is invariant
 	// under g again, so Canonical has to pick among still-symmetric replays once more - several times per game, and with the same
